@@ -169,107 +169,144 @@ Definition kw_spe_global : nat := 9.
 Definition kw_landmark_ratio : nat := 12.
 Definition kw_sne_theta : nat := 20.
 
-(* integer bound expressions over a cfg; `static_cast<IndexType>(n_vectors * landmark_ratio)` is the
-   model's c_L by definition (computed by the check with the same double expression) *)
-Fixpoint bz (c : cfg) (b : bexpr) : option Z :=
+(* The tables are first NORMALISED by closed functions (no request involved: `vm_compute` evaluates them
+   completely) into the small language below, then evaluated on a cfg. *)
+Inductive zx :=
+| ZC (z : Z) | ZvN | ZvDim | Zvk | Zvd
+| ZvL                               (* static_cast<IndexType>(n_vectors * landmark_ratio): the model's c_L *)
+| ZAdd (a b : zx) | ZSub (a b : zx) | ZMul (a b : zx).
+
+Fixpoint norm_b (b : bexpr) : option zx :=
   match b with
-  | BInt z => Some z
-  | BN => Some (c_N c)
-  | BDim => Some (c_D c)
+  | BInt z => Some (ZC z)
+  | BN => Some ZvN
+  | BDim => Some ZvDim
   | BParam k TIndex =>
-      if Nat.eqb k kw_num_neighbors then Some (c_k c)
-      else if Nat.eqb k kw_target_dimension then Some (c_d c) else None
-  | BTrunc (BMul BN (BParam k TScalar)) => if Nat.eqb k kw_landmark_ratio then Some (c_L c) else None
-  | BAdd a e => match bz c a, bz c e with Some x, Some y => Some (x + y) | _, _ => None end
-  | BSub a e => match bz c a, bz c e with Some x, Some y => Some (x - y) | _, _ => None end
-  | BMul a e => match bz c a, bz c e with Some x, Some y => Some (x * y) | _, _ => None end
+      if Nat.eqb k kw_num_neighbors then Some Zvk
+      else if Nat.eqb k kw_target_dimension then Some Zvd else None
+  | BTrunc (BMul BN (BParam k TScalar)) => if Nat.eqb k kw_landmark_ratio then Some ZvL else None
+  | BAdd a e => match norm_b a, norm_b e with Some x, Some y => Some (ZAdd x y) | _, _ => None end
+  | BSub a e => match norm_b a, norm_b e with Some x, Some y => Some (ZSub x y) | _, _ => None end
+  | BMul a e => match norm_b a, norm_b e with Some x, Some y => Some (ZMul x y) | _, _ => None end
   | _ => None
   end.
 
-Definition lo_z (c : cfg) (lo : option (bool * bexpr)) (x : Z) : option bool :=
-  match lo with
-  | None => Some true
-  | Some (strict, b) => match bz c b with Some v => Some (if strict then v <? x else v <=? x) | None => None end
-  end.
+(* guards the C01 clauses sit under *)
+Inductive zg :=
+| GBarnesHut (pos : bool)           (* (sne_theta > 0) == pos *)
+| GSpeLocal (pos : bool).           (* spe_global_strategy.is(false) == pos *)
 
-Definition hi_z (c : cfg) (hi : option (bool * bexpr)) (x : Z) : option bool :=
-  match hi with
-  | None => Some true
-  | Some (strict, b) => match bz c b with Some v => Some (if strict then x <? v else x <=? v) | None => None end
-  end.
-
-Definition pred_z (c : cfg) (p : pred) (x : Z) : option bool :=
-  match lo_z c (p_lo p) x, hi_z c (p_hi p) x with
-  | Some a, Some b => Some (a && b)
-  | _, _ => None
-  end.
-
-(* guards the C01 clauses sit under: `sne_theta > 0` (Barnes-Hut mode), `spe_global_strategy.is(false)` *)
-Definition guard_z (c : cfg) (g : guard) : option bool :=
+Definition norm_g (g : guard) : option zg :=
   match g with
-  | GGt k TScalar q pos =>
-      if Nat.eqb k kw_sne_theta && Qeq_bool q 0 then Some (Bool.eqb (negb (c_exact c)) pos) else None
-  | GIs k (VBool b) pos =>
-      if Nat.eqb k kw_spe_global then Some (Bool.eqb (Bool.eqb (c_global c) b) pos) else None
+  | GGt k TScalar q pos => if Nat.eqb k kw_sne_theta && Qeq_bool q 0 then Some (GBarnesHut pos) else None
+  | GIs k (VBool false) pos => if Nat.eqb k kw_spe_global then Some (GSpeLocal pos) else None
+  | GIs k (VBool true) pos => if Nat.eqb k kw_spe_global then Some (GSpeLocal (negb pos)) else None
   | _ => None
   end.
 
-Fixpoint guards_z (c : cfg) (gs : list guard) : option bool :=
+Fixpoint norm_gs (gs : list guard) : option (list zg) :=
   match gs with
-  | [] => Some true
-  | g :: r => match guard_z c g, guards_z c r with Some a, Some b => Some (a && b) | _, _ => None end
+  | [] => Some []
+  | g :: r => match norm_g g, norm_gs r with Some a, Some b => Some (a :: b) | _, _ => None end
   end.
 
-(* conjunction of the checks on keyword kw in a list of steps *)
-Fixpoint checks_z (c : cfg) (kw : nat) (x : Z) (steps : list step) : option bool :=
+Definition norm_bound (o : option (bool * bexpr)) : option (option (bool * zx)) :=
+  match o with
+  | None => Some None
+  | Some (strict, b) => match norm_b b with Some x => Some (Some (strict, x)) | None => None end
+  end.
+
+Record zclause := { zc_guards : list zg; zc_lo : option (bool * zx); zc_hi : option (bool * zx) }.
+
+(* the checks on keyword kw in a list of steps, in order; None = a shape this reader does not know *)
+Fixpoint norm_steps (kw : nat) (steps : list step) : option (list zclause) :=
   match steps with
-  | [] => Some true
+  | [] => Some []
   | (gs, BCheck ck) :: r =>
       if Nat.eqb (c_kw ck) kw then
-        match guards_z c gs, pred_z c (c_pred ck) x, checks_z c kw x r with
-        | Some g, Some p, Some rest => Some ((negb g || p) && rest)
+        match norm_gs gs, norm_bound (p_lo (c_pred ck)), norm_bound (p_hi (c_pred ck)), norm_steps kw r with
+        | Some g, Some lo, Some hi, Some rest => Some ({| zc_guards := g; zc_lo := lo; zc_hi := hi |} :: rest)
+        | _, _, _, _ => None
+        end
+      else norm_steps kw r
+  | _ :: r => norm_steps kw r
+  end.
+
+Fixpoint norm_stages (kw : nat) (st : list stage) : option (list zclause) :=
+  match st with
+  | [] => Some []
+  | SCheck ck :: r =>
+      if Nat.eqb (c_kw ck) kw then
+        match norm_bound (p_lo (c_pred ck)), norm_bound (p_hi (c_pred ck)), norm_stages kw r with
+        | Some lo, Some hi, Some rest => Some ({| zc_guards := []; zc_lo := lo; zc_hi := hi |} :: rest)
         | _, _, _ => None
         end
-      else checks_z c kw x r
-  | _ :: r => checks_z c kw x r
+      else norm_stages kw r
+  | _ :: r => norm_stages kw r
   end.
 
-(* the generated counterpart of Shapes_Model.validate (scalar predicates apart):
-   target_dimension against every clause of the selected method's validate() *)
-Definition td_gen (T : tables) (c : cfg) : option bool :=
-  match find_method T (meth_id (c_m c)) with
+(* closed in (T, m) *)
+Definition td_clauses (T : tables) (m : meth) : option (list zclause) :=
+  match find_method T (meth_id m) with
   | None => None
-  | Some mi => checks_z c kw_target_dimension (c_d c) (m_validate mi)
+  | Some mi => norm_steps kw_target_dimension (m_validate mi)
   end.
+Definition nn_clauses (T : tables) (m : meth) : option (list zclause) :=
+  match find_method T (meth_id m) with
+  | None => None
+  | Some mi => norm_steps kw_num_neighbors (m_embed mi)
+  end.
+Definition base_clauses (T : tables) : option (list zclause) :=
+  norm_stages kw_target_dimension (t_stages T).
+
+(* evaluation on a request *)
+Fixpoint zx_eval (c : cfg) (e : zx) : Z :=
+  match e with
+  | ZC z => z | ZvN => c_N c | ZvDim => c_D c | Zvk => c_k c | Zvd => c_d c | ZvL => c_L c
+  | ZAdd a b => zx_eval c a + zx_eval c b
+  | ZSub a b => zx_eval c a - zx_eval c b
+  | ZMul a b => zx_eval c a * zx_eval c b
+  end.
+
+Definition zg_eval (c : cfg) (g : zg) : bool :=
+  match g with
+  | GBarnesHut pos => Bool.eqb (negb (c_exact c)) pos
+  | GSpeLocal pos => Bool.eqb (negb (c_global c)) pos
+  end.
+
+Definition zlo_eval (c : cfg) (lo : option (bool * zx)) (x : Z) : bool :=
+  match lo with
+  | None => true
+  | Some (strict, b) => if strict then zx_eval c b <? x else zx_eval c b <=? x
+  end.
+Definition zhi_eval (c : cfg) (hi : option (bool * zx)) (x : Z) : bool :=
+  match hi with
+  | None => true
+  | Some (strict, b) => if strict then x <? zx_eval c b else x <=? zx_eval c b
+  end.
+
+Definition zclause_active (c : cfg) (cl : zclause) : bool := forallb (zg_eval c) (zc_guards cl).
+
+Definition zclause_eval (c : cfg) (x : Z) (cl : zclause) : bool :=
+  negb (zclause_active c cl) || (zlo_eval c (zc_lo cl) x && zhi_eval c (zc_hi cl) x).
+
+Definition zclauses_eval (c : cfg) (x : Z) (cls : list zclause) : bool := forallb (zclause_eval c x) cls.
+
+(* the generated counterpart of Shapes_Model.validate (scalar predicates apart): target_dimension
+   against every clause of the selected method's validate() *)
+Definition td_gen (T : tables) (c : cfg) : option bool :=
+  option_map (zclauses_eval c (c_d c)) (td_clauses T (c_m c)).
 
 (* ... of the base constructor's range check (stage SCheck on target_dimension) *)
-Fixpoint base_td_gen (c : cfg) (st : list stage) : option bool :=
-  match st with
-  | [] => Some true
-  | SCheck ck :: r =>
-      if Nat.eqb (c_kw ck) kw_target_dimension then
-        match pred_z c (c_pred ck) (c_d c), base_td_gen c r with
-        | Some p, Some rest => Some (p && rest) | _, _ => None
-        end
-      else base_td_gen c r
-  | _ :: r => base_td_gen c r
-  end.
+Definition base_td_gen (T : tables) (c : cfg) : option bool :=
+  option_map (zclauses_eval c (c_d c)) (base_clauses T).
 
-(* ... of neighbors_stage: num_neighbors against the clauses in embed() (find_neighbors_with);
-   None = the method never checks num_neighbors *)
-Definition has_nn_check (c : cfg) (steps : list step) : bool :=
-  existsb (fun s => match s with
-                    | (gs, BCheck ck) => Nat.eqb (c_kw ck) kw_num_neighbors &&
-                                         match guards_z c gs with Some true => true | _ => false end
-                    | _ => false end) steps.
-
+(* ... of neighbors_stage: num_neighbors against the clauses of embed() (find_neighbors_with);
+   Some None = no clause is active for this request: the method does not look at num_neighbors *)
 Definition nn_gen (T : tables) (c : cfg) : option (option bool) :=
-  match find_method T (meth_id (c_m c)) with
+  match nn_clauses T (c_m c) with
   | None => None
-  | Some mi =>
-      if has_nn_check c (m_embed mi) then
-        match checks_z c kw_num_neighbors (c_k c) (m_embed mi) with Some b => Some (Some b) | None => None end
-      else Some None
+  | Some cls => Some (if existsb (zclause_active c) cls then Some (zclauses_eval c (c_k c) cls) else None)
   end.
 
 Definition with_scalars_ok (c : cfg) : cfg :=
@@ -287,7 +324,7 @@ Definition opt_bool_eqb (a b : option bool) : bool :=
 (* executable: does the generated validation table decide this request differently from the model? *)
 Definition validate_differs_cfg (T : tables) (c : cfg) : bool :=
   negb (opt_bool_eqb (td_gen T c) (Some (validate head (with_scalars_ok c)))) ||
-  negb (opt_bool_eqb (base_td_gen c (t_stages T)) (Some ((1 <=? c_d c) && (c_d c <? c_N c)))) ||
+  negb (opt_bool_eqb (base_td_gen T c) (Some ((1 <=? c_d c) && (c_d c <? c_N c)))) ||
   match nn_gen T c with Some o => negb (opt_bool_eqb o (nn_model c)) | None => true end.
 
 (* ---------------------------------------------------------------- eigen slices (t_eig) *)
